@@ -150,6 +150,30 @@ var smpp5Operations = []struct {
 	{0x80000113, "cancel_broadcast_sm_resp", 0},
 }
 
+// layoutIntoHeld: the layout clause on destinations that already hold octets (C12's destination kinds): the octets APPENDED
+// by Marshal must be the same specification layout [want] that a fresh destination receives.
+func layoutIntoHeld(r *Run, t pduType, before interface{}, want []byte, k int) {
+	kind := []string{"buffer", "wrapped", "buffer"}[k%3]
+	held := r.Rng.Bytes([]int{1, 3, 4, 16, 17, 100}[k%6])
+	r.SetReplay(replayValueDest(before, kind, held, 0))
+	_, err, got, panicked, pmsg := marshalInto(before, kind, held, 0)
+	in := fmt.Sprintf("marshal %s %.1500s into %s already holding %d octets", t.Name, coqValue(before), kind, len(held))
+	r.Count(fmt.Sprintf("held/%s/%d", t.Name, k), true, "dest="+kind)
+	switch {
+	case panicked:
+		r.Fail("misstatement/panic", "Marshal panicked", in, pmsg, "a frame")
+	case err != nil:
+		r.Fail("layout/dest="+kind+"/"+t.Name, "Marshal refused, on a destination already holding octets, a value it lays out on a fresh one", in, fmt.Sprint(err), hex.EncodeToString(want))
+	case len(got) < len(held) || !bytes.Equal(got[:len(held)], held) || !bytes.Equal(got[len(held):], want):
+		app := got
+		if len(got) >= len(held) {
+			app = got[len(held):]
+		}
+		r.Fail("layout/dest="+kind+"/"+t.Name, "the octets appended to a destination that already held octets are not the SMPP v5 layout of the value (command_length must state this frame)", in,
+			hex.EncodeToString(app[:min(len(app), 64)]), hex.EncodeToString(want[:min(len(want), 64)]))
+	}
+}
+
 func corrC02(r *Run) {
 	r.Import("Model.PduRun")
 	r.Import("Spec.Smpp5")
@@ -163,7 +187,15 @@ func corrC02(r *Run) {
 		"non-trivial = distinct (type, value) with a body"
 	ts := pduTypes()
 	// (1) goldens by name
-	for _, g := range goldens() {
+	for gi, g := range goldens() {
+		if !strings.HasPrefix(g.cls, "layout/") {
+			// the same golden on a destination that already holds octets: the octets appended are the frame of the cited table
+			for _, t := range ts {
+				if t.T == reflect.TypeOf(g.p).Elem() {
+					layoutIntoHeld(r, t, clonePDU(g.p), g.want, gi)
+				}
+			}
+		}
 		r.SetReplay(replayValue(g.p))
 		_, err, w, panicked, pmsg := marshalRec(g.p)
 		r.Count("golden/"+g.name, true, "golden")
@@ -212,6 +244,7 @@ func corrC02(r *Run) {
 			}
 			frame := w.calls[0]
 			seq := uint32(reflect.ValueOf(orig).Elem().Field(0).Interface().(pdu.Header).Sequence)
+			layoutIntoHeld(r, t, orig, frame, i) // the frame is compared with the specification encoder in the kernel case below
 			r.Count(t.Name+term, reflect.ValueOf(p).Elem().NumField() > 1, "spec-encode/"+t.Name)
 			r.Case(fmt.Sprintf("spec layout = Marshal %s %.200s", t.Name, term),
 				fmt.Sprintf("match lay_params (erase %s) (to_spec %s %s) with Some body => beq_bytes (Spec.Smpp5.spec_frame %d 0 %d body) %s | None => false end",
@@ -244,6 +277,10 @@ func corrC02(r *Run) {
 			r.Fail("layout/loaded-content/"+it.t.Name, "Marshal refused a value the specification layout can express", in, fmt.Sprint(err), hex.EncodeToString(want))
 		case !bytes.Equal(w.calls[0], want):
 			r.Fail("layout/loaded-content/"+it.t.Name, "octets differ from the SMPP v5 layout of this value", in, hex.EncodeToString(w.calls[0]), hex.EncodeToString(want))
+		default:
+			if k%7 == 0 {
+				layoutIntoHeld(r, it.t, orig, want, k/7)
+			}
 		}
 		if k%300 == int(r.Seed%300) && err == nil && !panicked && len(w.calls) == 1 {
 			seq := uint32(reflect.ValueOf(orig).Elem().Field(0).Interface().(pdu.Header).Sequence)
